@@ -75,19 +75,35 @@ def run(ctx, res):
         ("map-attribute", "{%% set f = [x]|map(attribute='%(m)s')|first %%}{{ f(%(a)s) }}"),
         ("with", "{%% with f = x.%(m)s %%}{{ f(%(a)s) }}{%% endwith %%}"),
         ("format", "{{ '{0.%(m)s}'.format(x) }}{{ x.%(m)s(%(a)s) }}"),
+        # the method looked up on the class and called with the object as first argument (`dict` is a default global;
+        # fixed in /repo "the immutable sandbox must refuse mutating methods looked up on the class")
+        ("class-attr", "{{ T.%(m)s(%(xa)s) }}"),
+        ("class-item", "{{ T['%(m)s'](%(xa)s) }}"),
+        ("class-alias", "{%% set f = T.%(m)s %%}{{ f(%(xa)s) }}"),
+        ("class-attr-filter", "{{ (T|attr('%(m)s'))(%(xa)s) }}"),
+        ("global-dict", "{{ dict.%(m)s(%(xa)s) }}"),
+        # statements that store: a block set with an attribute target (fixed in /repo cf81214), a namespace built from the object
+        ("block-set-attr", "{%% set x.%(m)s %%}v{%% endset %%}"),
+        ("set-attr", "{%% set x.%(m)s = 1 %%}"),
+        ("namespace-of", "{%% set ns = namespace(x) %%}{%% set ns.%(m)s = 1 %%}{%% set ns.k2 %%}v{%% endset %%}"),
+        ("namespace-of-kw", "{%% set ns = namespace(x, q=1) %%}{%% set ns.%(m)s = 1 %%}"),
     ]
     argsrc = ARG_SRC if not ctx.quick else ARG_SRC[:8] + ["y"]
     for tn, m in pairs:
         for rname, rt in routes:
             for a in argsrc:
                 for is_async, e in ((False, env), (True, aenv)):
-                    if is_async and ctx.quick and rname not in ("attr", "alias"):
+                    if is_async and ctx.quick and rname not in ("attr", "alias", "class-attr", "block-set-attr"):
                         continue
                     data = fresh()
                     x = data[tn]
                     before, ybefore = copy.deepcopy(x), copy.deepcopy(data["y"])
-                    src = rt % {"m": m, "a": a}
-                    out, err = render(e, src, {"x": x, "y": data["y"]}, is_async)
+                    if rname == "global-dict" and tn != "dict":
+                        continue
+                    if rname in ("block-set-attr", "set-attr", "namespace-of", "namespace-of-kw") and a != argsrc[0]:
+                        continue            # these routes take no call arguments: once per (type, name)
+                    src = rt % {"m": m, "a": a, "xa": "x, " + a if a else "x"}
+                    out, err = render(e, src, {"x": x, "y": data["y"], "T": type(x)}, is_async)
                     evaluations += 1
                     distinct.add((tn, m, rname, a, is_async))
                     outcome[err or "rendered"] = outcome.get(err or "rendered", 0) + 1
@@ -106,7 +122,9 @@ def run(ctx, res):
         "evaluations": evaluations + n_cross,
         "distinct_nontrivial": len(distinct) + fstats["distinct"],
         "rule": ("every public method of list, dict, set, deque x argument shapes x routes (attribute, subscript, "
-                 "set alias, |attr, map(attribute=), with, format lookup) in sync and async immutable sandboxes, "
+                 "set alias, |attr, map(attribute=), with, format lookup; the same method looked up on the class object and on the "
+                 "global `dict` and called with the object; block set / set with an attribute target; namespace(x)) in sync "
+                 "and async immutable sandboxes, "
                  "receiver and argument deep-compared; every built-in filter x container receivers x positional and "
                  "per-parameter keyword container arguments; plus the cross-run of every translated decision "
                  "function against sandbox.py on sample objects x attribute names"),
